@@ -269,6 +269,9 @@ func (p *Path) MustHold(c *Term, kind, label, msg string, in *Interp) bool {
 		return true
 	}
 	neg := Not(c)
+	if os.Getenv("VERIF_DUMPQ") != "" {
+		fmt.Fprintf(os.Stderr, "QUERY %s %q: %s\n", kind, label, c.str(9))
+	}
 	var model []Nondet
 	r, _ := p.ex.solver.CheckModel(neg, func(eval func([]*Term) []uint64) {
 		model = p.extractModel(eval)
